@@ -11,3 +11,4 @@ for p in "$@"; do
 done
 git -C /repo checkout -- . ; git -C /repo clean -fdq
 git -C /repo status --short
+python3 check.py setup >/dev/null 2>&1
